@@ -140,6 +140,33 @@ def compare_case(pid, spec, cid, cfg, steps, family, mlines, ilines):
                 return dict(step=n, key="heap-leak", expected="heap=0", observed="heap=" + e["heap"])
     return None
 
+def strip_tail(v, sep):
+    """per-vector lists: trailing empty slots are not significant"""
+    parts = v.split(sep) if v else []
+    while parts and parts[-1] == "-":
+        parts.pop()
+    return sep.join(parts)
+
+def spec_vs_model(cid, sl, ml):
+    """The tracked list specification (Track.spec_track) against the byte-level machine, step by step.
+    AV.Proofs.Track.spec_track_sound proves they agree; a difference is a defect of extraction / driver."""
+    msteps = [l for l in (ml or []) if l.get("_step") != "end"]
+    n = 0
+    for i, sp in enumerate(sl):
+        if sp is None or i >= len(msteps):
+            continue
+        m = msteps[i]
+        n += 1
+        pairs = [("out", sp["out"], m.get("out", "")), ("ret", sp["ret"], m.get("ret", "")),
+                 ("len", strip_tail(sp["len"], ","), strip_tail(m.get("len", ""), ",")),
+                 ("snap", strip_tail(sp["snap"], "|"), strip_tail(m.get("snap", ""), "|")),
+                 ("ev_user", sp["ev"], PROJ["ev_user"](m))]
+        for k, a, b in pairs:
+            if a != b:
+                raise core.ToolBroken("list specification and machine model disagree on case %s step %d key %s: spec=%r model=%r "
+                                      "(Track.spec_track_sound excludes this: extraction or driver defect)" % (cid, i, k, a, b))
+    return n
+
 def nontrivial_steps(isteps):
     """count steps that changed state, returned a value or produced an event"""
     n = 0
@@ -162,6 +189,7 @@ def write_replay(pid, f):
     json.dump(dict(property=pid, case=line, failing_step=f["step"], step_text=f["steps"][f["step"]] if f["step"] < len(f["steps"]) else "end-of-case",
                    diverging_key=f["key"], expected_by_model=f["expected"], observed_on_implementation=f["observed"],
                    family=f["family"], signature=failure_signature(f),
+                   predicted_by_list_specification=f.get("spec_predicts", "<step outside the fragment of the history theorems>"),
                    how_to_replay="./check %s --replay %s" % (pid, base + ".case")),
               open(base + ".json", "w"), indent=1)
     return base + ".case"
@@ -285,7 +313,7 @@ def run_check(pid, tier, seed, replay, t0):
     cases = []
     dist = collections.Counter()
     stats = dict(evaluations=0, steps=0, nontrivial=0, validated=0, distinct=set(), ops=collections.Counter(),
-                 outs=collections.Counter(), cfgs=collections.Counter())
+                 outs=collections.Counter(), cfgs=collections.Counter(), spec_steps=0, spec_cases=0)
     crashed = []
     cc_count = [0]
     if build_failure is None:
@@ -331,11 +359,21 @@ def run_check(pid, tier, seed, replay, t0):
             if nt:
                 stats["nontrivial"] += 1
                 stats["distinct"].add(hashlib.sha1((core.cfg_key(cfg) + "|" + ";".join(steps)).encode()).digest()[:8])
+            sl = core.SPEC.get(cid) or []
+            tracked = spec_vs_model(cid, sl, ml)
+            stats["spec_steps"] += tracked
+            if sl and tracked == len(steps):
+                stats["spec_cases"] += 1
             f = compare_case(pid, spec, cid, cfg, steps, fam, ml, il)
             if f is None:
                 stats["validated"] += 1
             else:
                 f.update(cfg=cfg, steps=steps, family=fam, cid=cid)
+                sp = sl[f["step"]] if f["step"] < len(sl) else None
+                if sp is not None:
+                    # the failing step lies in the fragment of the history theorems: what std::vec::Vec's list
+                    # semantics (WorldSpec.spec_step) says about it
+                    f["spec_predicts"] = " ".join("%s=%s" % (k, sp[k]) for k in ("out", "ret", "len", "snap", "ev"))
                 failures.append(f)
     # ---------------- the same cases on the default build (C19: behaviour identical to the default build)
     extra_cov = {}
@@ -388,6 +426,8 @@ def run_check(pid, tier, seed, replay, t0):
         print("  failing input (%d similar): cfg=%s step=%r key=%s expected=%s observed=%s" %
               (cnt, core.cfg_key(f["cfg"]), f["steps"][f["step"]] if f["step"] < len(f["steps"]) else "end", f["key"],
                f["expected"][:120], f["observed"][:120]))
+        if f.get("spec_predicts"):
+            print("    the list specification (WorldSpec.spec_step, proven equal to the model on this step) predicts: " + f["spec_predicts"][:200])
     for text, path in static_viol:
         print("  failing input: " + text)
         violations.append("VIOLATION property=%s replay=%s" % (pid, path))
@@ -445,6 +485,11 @@ def run_check(pid, tier, seed, replay, t0):
             families={k: v for k, v in dist.items()}, projection=spec["keys"],
             input_distribution=dict(ops=dict(stats["ops"]), outcomes=dict(stats["outs"]),
                                     configurations=len(stats["cfgs"])),
+            steps_inside_history_fragment=stats["spec_steps"], cases_entirely_inside_history_fragment=stats["spec_cases"],
+            history_fragment_rule="a step is inside the fragment when no panic fuse is armed, WorldSpec.spec_step is defined on the abstraction of the "
+                                  "machine world and the environment assumption admissibleb holds (AV.Proofs.Track.spec_track); for these steps the "
+                                  "theorems C01_step_refines / spec_track_sound apply and the specification's prediction is compared with the model on every run; "
+                                  "a case entirely inside is an instance of C01_history_refines from the empty world",
             known_findings_printed=sorted(seen_known), crashed_shards=len(crashed),
             coq_build_s=round(coq_s, 1), extraction_crosschecked_in_coq=cc_count[0], **extra_cov
         ),
